@@ -954,7 +954,8 @@ func (p *Printer) arithmExprRecurse(expr ArithmExpr, compact, spacePlusMinus boo
 		} else {
 			if spacePlusMinus {
 				switch expr.Op {
-				case Plus, Minus:
+				case Plus, Minus, Inc, Dec:
+					// "${a: --b}" must not become "${a:--b}", a default value.
 					p.space()
 				}
 			}
